@@ -868,6 +868,9 @@ class Message:
                 next_payload_type, critical, length = unpack_from('>BBH', data, offset)
             except struct_error as ex:
                 raise InvalidSyntax(ex)
+            # the length includes the 4 octets of the generic payload header
+            if length < 4:
+                raise InvalidSyntax(f'Payload length {length} is shorter than the generic payload header')
             critical = bool(critical >> 7)
             start = offset + 4
             end = offset + length
